@@ -523,7 +523,65 @@ pub fn witness(sc: &Scenario, fault: &Fault, choices: &[usize], out: &RunOut, la
         "signature": sig,
         "what": msg,
         "expected": "reader delivers exactly the Ok-pushed non-empty batches, is woken whenever a batch or end-of-stream becomes available, and returns None after the last writer is dropped",
+        "replay": replay_record(sc, fault, choices),
     })
+}
+
+/// machine-readable part of a witness: everything `--replay` needs, no generator involved
+pub fn replay_record(sc: &Scenario, fault: &Fault, choices: &[usize]) -> Json {
+    let scripts: Vec<Vec<Json>> = sc
+        .scripts
+        .iter()
+        .map(|s| s.iter().map(|o| match o { WOp::Push(r) => json!({"push": r}), WOp::Dup { via_sink } => json!({"dup_via_sink": via_sink}) }).collect())
+        .collect();
+    let f = match fault {
+        Fault::None => json!({"kind": "none"}),
+        Fault::Quota { push_k, delta, restore } => json!({"kind": "quota", "push_k": push_k, "delta": delta, "restore": restore}),
+        Fault::CreateFail { push_k } => json!({"kind": "create", "push_k": push_k}),
+        Fault::Disabled => json!({"kind": "disabled"}),
+    };
+    json!({"mpsc": sc.mpsc, "threshold": sc.threshold as u64, "thr_name": sc.thr_name, "scripts": scripts, "reader_drop_after": sc.reader_drop_after, "fault": f, "choices": choices})
+}
+
+/// Re-execute a recorded history against the current build. Returns the run and prints its trace.
+pub fn replay(rec: &Json, root: &Path) -> Option<RunOut> {
+    let u = |v: &Json, k: &str| v.get(k).and_then(|x| x.as_u64());
+    let scripts: Vec<Vec<WOp>> = rec
+        .get("scripts")?
+        .as_array()?
+        .iter()
+        .map(|s| {
+            s.as_array().map(|a| a.iter().filter_map(|o| if let Some(r) = u(o, "push") { Some(WOp::Push(r as usize)) } else { o.get("dup_via_sink").and_then(|b| b.as_bool()).map(|b| WOp::Dup { via_sink: b }) }).collect()).unwrap_or_default()
+        })
+        .collect();
+    let sc = Scenario {
+        mpsc: rec.get("mpsc")?.as_bool()?,
+        threshold: u(rec, "threshold")? as usize,
+        thr_name: rec.get("thr_name").and_then(|x| x.as_str()).unwrap_or("").to_string(),
+        scripts,
+        reader_drop_after: u(rec, "reader_drop_after").map(|x| x as usize),
+    };
+    let f = rec.get("fault")?;
+    let fault = match f.get("kind")?.as_str()? {
+        "quota" => Fault::Quota { push_k: u(f, "push_k")? as usize, delta: u(f, "delta")?, restore: f.get("restore")?.as_bool()? },
+        "create" => Fault::CreateFail { push_k: u(f, "push_k")? as usize },
+        "disabled" => Fault::Disabled,
+        _ => Fault::None,
+    };
+    let choices: Vec<usize> = rec.get("choices")?.as_array()?.iter().filter_map(|x| x.as_u64()).map(|x| x as usize).collect();
+    let mut pos = 0;
+    let mut chooser = |n: usize| {
+        let c = choices.get(pos).copied().unwrap_or(0).min(n - 1);
+        pos += 1;
+        c
+    };
+    let out = with_rt(|rt| run_history(&sc, &fault, &mut chooser, &Ctx { rt, root, selftest: 0 }));
+    println!("scenario: {}", sc.to_json());
+    println!("fault: {fault:?}");
+    for l in &out.trace {
+        println!("  {l}");
+    }
+    Some(out)
 }
 
 fn record(rep: &Report, prefix: &str, sc: &Scenario, out: &RunOut) {
@@ -613,7 +671,7 @@ pub fn explore_exhaustive(sc: &Scenario, prefix: &[usize], budget: &std::sync::a
             record(rep, "l1x", sc, &out);
             if out.violation.is_some() {
                 let choices: Vec<usize> = rec.iter().map(|x| x.0).collect();
-                rep.violation(&out.violation.as_ref().unwrap().0, witness(sc, &Fault::None, &choices, &out, "sequential-exhaustive"));
+                report_violation(rep, &out.violation.as_ref().unwrap().0, witness(sc, &Fault::None, &choices, &out, "sequential-exhaustive"));
                 return (n, false);
             }
             path = rec;
@@ -650,7 +708,7 @@ pub fn random_history(rep: &Report, seed: u64, idx: u64, root: &Path, selftest: 
     rep.case(fp_mix(sc.fp(), out.sched_fp), out.pushes_ok > 0 && out.steps > out.ops);
     record(rep, "l1r", &sc, &out);
     if let Some((sig, _)) = &out.violation {
-        rep.violation(sig, witness(&sc, &Fault::None, &choices, &out, "sequential-random"));
+        report_violation(rep, sig, witness(&sc, &Fault::None, &choices, &out, "sequential-random"));
     } else if idx == 0 && rep.want_sample() {
         rep.sample(json!({"layer": "sequential-random", "scenario": sc.to_json(), "operations": out.trace}));
     }
@@ -738,7 +796,7 @@ pub fn fault_sweep(rep: &Report, seed: u64, idx: u64, root: &Path) {
     rep.count("l3_histories_swept", 1);
     if let Some((sig, _)) = &dry.violation {
         rep.case(fp_mix(sc.fp(), dry.sched_fp), true);
-        rep.violation(sig, witness(&sc, &Fault::None, &choices, &dry, "fault-sweep-dry-run"));
+        report_violation(rep, sig, witness(&sc, &Fault::None, &choices, &dry, "fault-sweep-dry-run"));
         return;
     }
     let mut faults: Vec<Fault> = vec![Fault::Disabled];
@@ -787,7 +845,7 @@ pub fn fault_sweep(rep: &Report, seed: u64, idx: u64, root: &Path) {
         }
         if let Some((sig, _)) = &out.violation {
             rep.count(&format!("l3_violations/{sig}/{kind}"), 1);
-            rep.violation(sig, witness(&sc, &fault, &choices, &out, "fault-enumeration"));
+            report_violation(rep, sig, witness(&sc, &fault, &choices, &out, "fault-enumeration"));
         }
     }
     if idx == 0 && rep.want_sample() {
